@@ -308,10 +308,15 @@ def make_pinger ():
       self._w = pair[1]
       self._r = pair[0]
       assert os is not None
+      # Never block in ping(): a full pipe means a wakeup is pending anyway
+      os.set_blocking(self._w, False)
 
     def ping (self):
       if os is None: return #TODO: Is there a better fix for this?
-      os.write(self._w, b' ')
+      try:
+        os.write(self._w, b' ')
+      except BlockingIOError:
+        pass # Pipe is full; whoever selects on it will be woken
 
     def fileno (self):
       return self._r
